@@ -152,6 +152,8 @@ def build_segments(sf, spec, op_cache=None):
         else:
             p = sf.Program(fresh_n(spec, j), name=f"s{j}")
         _append_ops(p, seg, op_cache)
+        if spec.get("prog_shots") and spec["prog_shots"][j] is not None:
+            p.run_options = {"shots": spec["prog_shots"][j]}
         out.append(p)
     return out
 
@@ -262,8 +264,10 @@ def model_progs(spec, concat=False):
     for j, (seg, (init, fin)) in enumerate(zip(spec["segs"], built_regs(spec))):
         cmds, _ = model_cmds(seg, len(init))
         free = sorted({p["f"] for op in seg for p in op.get("pars", []) if isinstance(p, dict) and "f" in p})
-        progs.append(dict(name=f"s{j}", initN=sum(1 for r in init if r[1]), initRegs=init, regs=fin, circuit=cmds,
-                          free=free))
+        pd = dict(name=f"s{j}", initN=sum(1 for r in init if r[1]), initRegs=init, regs=fin, circuit=cmds, free=free)
+        if spec.get("prog_shots") and spec["prog_shots"][j] is not None:
+            pd["shots"] = spec["prog_shots"][j]
+        progs.append(pd)
         nm.append(len(fin))
     return progs, nm
 
@@ -320,7 +324,9 @@ def _flt(x):
 def canon_call(rec):
     """-> dict(name, args=[[float]], modes=[int], sel=[float]|None, opts=[[k, v]])"""
     name, a, kw = rec["name"], list(rec["args"]), rec["kw"]
-    out = dict(name=name, args=[], modes=[], sel=None, opts=[])
+    out = dict(name=name, args=[], modes=[], sel=None, opts=[], shots=None)
+    if name.startswith("measure_"):
+        out["shots"] = kw.get("shots")
     if name == "begin_circuit":
         out["args"] = [[float(a[0])]]
         out["opts"] = sorted([k, int(v)] for k, v in kw.items() if isinstance(v, (int, np.integer)) and not isinstance(v, bool))
@@ -335,7 +341,9 @@ def canon_call(rec):
         if kw.get("select") is not None:
             out["sel"] = _flt(kw["select"])
     elif name == "state":
-        pass
+        if kw.get("modes") is not None:
+            out["modes"] = [int(m) for m in kw["modes"]]
+            out["opts"] = [["modes", 1]]
     elif name in NMODES:
         k = NMODES[name]
         out["args"] = [_flt(x) for x in a[:len(a) - k]]
@@ -352,11 +360,11 @@ def model_call(c):
     f = lambda q: q[0] / q[1]
     return dict(name=c["name"], args=[[f(n[0]) + f(n[1]) * np.pi for n in arg] for arg in c["args"]],
                 modes=list(c["modes"]), sel=None if c["sel"] is None else [f(x) for x in c["sel"]],
-                opts=sorted([k, int(v)] for k, v in c["opts"]))
+                opts=sorted([k, int(v)] for k, v in c["opts"]), shots=c.get("shots"))
 
 
 def same_call(a, b, tol=1e-9):
-    if a["name"] != b["name"] or a["modes"] != b["modes"] or a["opts"] != b["opts"]:
+    if a["name"] != b["name"] or a["modes"] != b["modes"] or a["opts"] != b["opts"] or a.get("shots") != b.get("shots"):
         return False
     if (a["sel"] is None) != (b["sel"] is None):
         return False
@@ -371,11 +379,13 @@ def same_call(a, b, tol=1e-9):
 
 
 def outcomes_of(calls):
-    """measurement outcomes (one list per measurement call, shots = 1) in call order"""
+    """measurement outcomes in call order: per measurement call, per measured mode, the values over the shots"""
     out = []
     for c in calls:
         if c["name"].startswith("measure_") and c["ret"] is not None:
-            out.append([float(v) for v in np.asarray(c["ret"]).reshape(-1)])
+            nm = len(c["args"][0]) if c["name"] in ("measure_fock", "measure_threshold") else 1
+            a = np.asarray(c["ret"], dtype=float).reshape(-1, nm)   # rows = samples the back end returned
+            out.append([[float(v) for v in col] for col in a.T])
     return out
 
 
